@@ -143,7 +143,9 @@ class SSETransport(Transport):
                 await self._cleanup()
                 raise RuntimeError("Timeout waiting for SSE connection")
 
-        except Exception as e:
+        except BaseException as e:
+            # BaseException: a cancellation while the connection is being established
+            # must release the tasks and HTTP clients created above as well
             logger.error(f"Error in SSE transport __aenter__: {e}")
             await self._cleanup()
             raise
